@@ -45,6 +45,8 @@ pub enum EOp {
     /// turn the module's one local memory into an imported one: add the import, re-point data
     /// segments, instructions and exports at it, and let gc sweep the old memory
     ExternalizeMemoryThenGc,
+    /// `data.get_mut(id).kind = DataKind::Passive` on the first active segment (nothing else is touched)
+    MakeFirstActiveDataPassive,
     /// remove the newest import this history added through `imports.remove(module, field)` and
     /// delete the (unreferenced) entity it brought in
     RemoveNewestAddedImport,
@@ -60,6 +62,7 @@ pub fn all_ops() -> Vec<EOp> {
         v.push(EOp::AddFunc(0, b));
     }
     v.push(EOp::AddFunc(1, 1));
+    v.push(EOp::AddFunc(0, 12));
     v.push(EOp::AddFunc(3, 5));
     v.push(EOp::ExportNewestFunc);
     for k in 0..3 {
@@ -95,6 +98,7 @@ pub fn all_ops() -> Vec<EOp> {
     v.push(EOp::AddFuncTableEntry);
     v.push(EOp::RepointFirstFuncExport);
     v.push(EOp::ExternalizeMemoryThenGc);
+    v.push(EOp::MakeFirstActiveDataPassive);
     v.push(EOp::RemoveNewestAddedImport);
     v
 }
@@ -531,6 +535,14 @@ fn apply_op(o: &mut EObj, op: &EOp) {
                             .drop();
                         }
                     }
+                    12 => {
+                        // a value-producing loop put in front of what is already there with the positional API, with a back edge
+                        fb.drop();
+                        fb.loop_at(0, ValType::I32, |lp| {
+                            let me = lp.id();
+                            lp.i32_const(0).br_if(me).i32_const(k);
+                        });
+                    }
                     11 => {
                         // a block typed by an explicit type id whose signature the inline forms could also express
                         let ty = m.types.add(&[], &[ValType::F64]);
@@ -783,6 +795,12 @@ fn apply_op(o: &mut EObj, op: &EOp) {
             o.unreferenced.retain(|a| !matches!(a, Added::Func(x) if *x == f));
             let id = m.elements.add(ElementKind::Active { table: t, offset: ConstExpr::Value(Value::I32(0)) }, ElementItems::Functions(vec![f]));
             m.tables.get_mut(t).elem_segments.insert(id);
+        }
+        EOp::MakeFirstActiveDataPassive => {
+            let d = m.data.iter().find(|d| matches!(d.kind, DataKind::Active { .. })).map(|d| d.id());
+            if let Some(d) = d {
+                m.data.get_mut(d).kind = DataKind::Passive;
+            }
         }
         EOp::ExternalizeMemoryThenGc => {
             let mems: Vec<(MemoryId, bool, bool, u64, Option<u64>, bool)> = m.memories.iter().map(|x| (x.id(), x.import.is_some(), x.memory64, x.initial, x.maximum, x.shared)).collect();
@@ -1146,7 +1164,13 @@ impl<'a> Subject for EditSubject<'a> {
         }
         if self.oracle == "C07" {
             if hist.last() == Some(&EOp::Gc) && wmodel::validate214(&out, wmodel::FeatureSet::DEFAULT).is_ok() {
+                // (only while a memory - the former one - is still there: a segment that survives without it is another matter)
+                let made_passive = hist.iter().any(|h| *h == EOp::MakeFirstActiveDataPassive) && wmodel::decode(&out).map(|w| !w.memories.is_empty()).unwrap_or(false);
                 for (sig, detail) in crate::props::gcprops::precision_findings(&out) {
+                    // D20 (known finding): a data segment the history made passive stays listed in its former
+                    // memory's `data_segments`; while that memory is used the pass keeps the segment. Keyed by the
+                    // action and the kind of item; anything else that survives (the memory itself, ...) is not D20
+                    let sig = if made_passive && sig == "gc-kept-unreachable:data-segment" { "gc-kept-unreachable:data-segment:made-passive-but-still-listed-by-its-used-former-memory".to_string() } else { sig };
                     fs.push(Finding { sig, detail: format!("after the edit history {:?}: {}", hist, detail) });
                 }
                 walrus::passes::gc::run(&mut o.m);
@@ -1187,6 +1211,8 @@ pub fn bases() -> Vec<(String, Vec<u8>)> {
         ("same-names-imported-twice".into(), wgen::stateful::assemble(r#"(module (import "env" "f" (func $f1 (param i32))) (import "env" "f" (func $f2 (param i64) (result i64)))
             (import "env" "g" (func $g (result i32)))
             (func (export "run") (result i64) (call $f1 (call $g)) (call $f2 (i64.const 5))))"#).unwrap()),
+        // a memory nothing but its data segment needs
+        ("memory-only-data-needs".into(), wgen::stateful::assemble(r#"(module (memory 1) (data (i32.const 0) "x") (func (export "f") (nop)))"#).unwrap()),
         // an imported table, functions only a new element segment could make reachable
         ("imported-table".into(), wgen::stateful::assemble(r#"(module (type $r (func (result i32))) (import "env" "t" (table $t 4 funcref))
             (func $a (type $r) (i32.const 1))
